@@ -238,21 +238,29 @@ func cmdCheck(args []string) int {
 		}
 		// dedupe violations by message
 		seenMsg := map[string]bool{}
+		failedReplays := map[string]int{}
+		failedOut := map[string]string{}
 		for i := range r.Violations {
 			v := &r.Violations[i]
 			if seenMsg[v.Msg] {
 				continue
 			}
-			seenMsg[v.Msg] = true
+			// a model over an abstract primitive (hash, cipher) may not replay although another model of the
+			// same obligation does: try up to 6 violating paths per message before giving up on it
+			if failedReplays[v.Msg] >= 6 {
+				continue
+			}
 			rdir := filepath.Join(*replayRoot, fmt.Sprintf("%s_%s_%d", id, shortName(r.Entry), i))
 			reproduced, out := true, ""
 			if !*noNative {
 				reproduced, out = nativeReplay(*repo, *hdir, &cc, r.Entry, v, rdir, thorough)
 			}
 			if !reproduced {
-				inconclusive = append(inconclusive, fmt.Sprintf("%s: solver model for %q did not reproduce natively (engine/stub defect): %s", shortName(r.Entry), v.Msg, lastLines(out, 6)))
+				failedReplays[v.Msg]++
+				failedOut[v.Msg] = out
 				continue
 			}
+			seenMsg[v.Msg] = true
 			if v.Known != "" {
 				if k := kf.find(id, v.Known); k != nil && k.Status == "known" {
 					if !knownPrinted[v.Known] {
@@ -266,6 +274,11 @@ func cmdCheck(args []string) int {
 			lines = append(lines, fmt.Sprintf("VIOLATION property=%s replay=%s", id, rdir))
 			fmt.Fprintf(os.Stderr, "   violation: %s at %s\n", v.Msg, v.Pos)
 			exit = 1
+		}
+		for msg, n := range failedReplays {
+			if !seenMsg[msg] {
+				inconclusive = append(inconclusive, fmt.Sprintf("%s: %d solver model(s) for %q did not reproduce natively (engine/stub defect, or a model over an abstract primitive): %s", shortName(r.Entry), n, msg, lastLines(failedOut[msg], 6)))
+			}
 		}
 	}
 	if !*noNative {
